@@ -43,6 +43,15 @@ func TestC02Seq(t *testing.T) {
 			failf(t, "C02", map[string]any{"history": x.Log, "unstable": cc.Unstable, "rpc": cc.ViaRPC}, "%v", err)
 		}
 		acts := g.Actions(fail)
+		nbulk := 0
+		bulk := acts["bulk"]
+		acts["bulk"] = func(t *rapid.T) {
+			if nbulk >= 2 {
+				t.Skip("enough bulk creations")
+			}
+			nbulk++
+			bulk(t)
+		}
 		acts[""] = func(t *rapid.T) {
 			steps++
 			if x.Budget < 100 {
